@@ -103,6 +103,7 @@ def _run_session(rd, drv, dongle, case, out, session_index):
             out.feat('safelink' if host_safelink else 'no-safelink')
             # ---- main loop
             submitted = []      # packets for which send_packet returned True
+            last_pk = []
             received = []
             queued = []
             consecutive = 0
@@ -134,7 +135,12 @@ def _run_session(rd, drv, dongle, case, out, session_index):
                     if p is None:
                         break
                     received.append((p.port, p.channel, bytes(p.data)))
-                if step['submit'] and drv.out_queue.empty():
+                if step['submit'] and step.get('again') and last_pk and drv.out_queue.empty():
+                    # the same packet object handed over once more (a caller repeating a request, as the bootloader client does)
+                    if drv.send_packet(last_pk[0]):
+                        submitted.append(last_pk[1])
+                    out.feat('same-packet-object-again')
+                elif step['submit'] and drv.out_queue.empty():
                     pk = CRTPPacket()
                     pk.set_header(up_seq % 15, (up_seq // 15) % 4)
                     pk.data = bytes([up_seq & 0xff, up_seq >> 8]) if up_seq % 5 else bytes([up_seq & 0xff, up_seq >> 8, 0xF3, 0xFF])
@@ -142,8 +148,9 @@ def _run_session(rd, drv, dongle, case, out, session_index):
                         pk.data = b''       # header-only packet: told apart from its neighbours by port and channel
                     elif up_seq % 9 == 4:
                         pk.data = bytes([up_seq & 0xff, up_seq >> 8]) + bytes(range(100, 128))   # a full packet: 30 data bytes
+                    last_pk[:] = [pk, (pk.header & 0xF3, bytes(pk.data))]
                     if drv.send_packet(pk):
-                        submitted.append((pk.header & 0xF3, bytes(pk.data)))
+                        submitted.append(last_pk[1])
                     up_seq += 1
                 for _ in range(step['down']):
                     body = bytes([down_seq & 0xff, down_seq >> 8]) if down_seq % 4 else b''
@@ -233,7 +240,7 @@ def exhaustive_cases(tier):
             yield {'N': 100, 'nego': [kinds[i % len(kinds)] for i in range(k)] + ['ok'], 'peer_supports': True, 'steps': steps, 'style': k % 4}
 
 
-_step = st.fixed_dictionaries({'submit': st.booleans(), 'down': st.sampled_from([0, 0, 1, 1, 2]),
+_step = st.fixed_dictionaries({'submit': st.booleans(), 'again': st.sampled_from([False, False, False, True]), 'down': st.sampled_from([0, 0, 1, 1, 2]),
                                'outcome': st.sampled_from(['ok', 'ok', 'ok', 'up_lost', 'ack_lost'])})
 
 
